@@ -248,9 +248,9 @@ pub(crate) mod slice_c14 {
     #![allow(unused)]
     use super::BVec;
     #[allow(non_camel_case_types)]
-    type Vec = BVec<8>;
+    type Vec = BVec<12>;
     pub(crate) struct View {
-        pub pattern: BVec<8>,
+        pub pattern: BVec<12>,
         pub len: usize,
     }
     impl View {
